@@ -14,6 +14,7 @@ import (
 	"github.com/bloxapp/eth2-key-manager/core"
 	"github.com/bloxapp/eth2-key-manager/encryptor"
 	"github.com/bloxapp/eth2-key-manager/signer"
+	"github.com/bloxapp/eth2-key-manager/wallets/hd"
 	slashingprotection "github.com/bloxapp/eth2-key-manager/slashing_protection"
 	spectypes "github.com/bloxapp/ssv-spec/types"
 	ssz "github.com/ferranbt/fastssz"
@@ -62,6 +63,9 @@ func (a *zzAcc) SetContext(ctx *core.WalletContext)              {}
 type zzWallet struct {
 	acc     *zzAcc
 	deletes int
+	// how an absent account is reported (both occur in the real wallet): as hd.ErrAccountNotFound (the key is not in
+	// the wallet's index) or as the storage's own "account not found" (index entry without a record)
+	absentAsIndexMiss bool
 }
 
 func (w *zzWallet) ID() uuid.UUID         { return uuid.UUID{2} }
@@ -80,6 +84,9 @@ func (w *zzWallet) Accounts() []core.ValidatorAccount                       { re
 func (w *zzWallet) AccountByID(id uuid.UUID) (core.ValidatorAccount, error) { return w.acc, nil }
 func (w *zzWallet) AccountByPublicKey(pubKey string) (core.ValidatorAccount, error) {
 	if w.acc == nil {
+		if w.absentAsIndexMiss {
+			return nil, hd.ErrAccountNotFound
+		}
 		return nil, errors.New("account not found")
 	}
 	return w.acc, nil
@@ -439,5 +446,29 @@ func ZZHarnessConcurrentSign() {
 		}
 	}
 	zzInv(st, g, "after-concurrent-signing")
+	zzReach("end")
+}
+
+// ZZHarnessShareIdempotence (C12: "idempotent out-of-transaction side effects - add share only if absent, remove only
+// if present"): replaying a block after a crash calls AddShare / RemoveShare again on whatever the interrupted run
+// left behind. The wallet reports an absent account in one of the two ways the real wallet does (the key is missing
+// from its index: hd.ErrAccountNotFound; or the index still lists the key but the account record is gone: the
+// storage's own "account not found"). Either way RemoveShare of an absent share is a successful no-op and AddShare
+// of an absent share adds it (no storage write fails here).
+func ZZHarnessShareIdempotence() {
+	st, w, km, g, _ := zzState()
+	w.acc = nil
+	w.absentAsIndexMiss = zzNondetBool("absenceReportedAsIndexMiss")
+	if zzNondetBool("remove") {
+		err := km.RemoveShare("00")
+		zzReach("remove-absent")
+		zzAssert(err == nil, "removing-an-absent-share-is-a-successful-no-op")
+		zzAssert(w.acc == nil, "absent-share-stays-absent")
+	} else {
+		err := km.AddShare(&bls.SecretKey{})
+		zzReach("add-absent")
+		zzAssert(err == nil && w.acc != nil, "adding-an-absent-share-adds-it")
+	}
+	zzInv(st, g, "after-replayed-side-effect")
 	zzReach("end")
 }
